@@ -431,4 +431,22 @@ PROPS.update({
              'text uses a non-default scanner setting or an annotation; distinct = distinct text',
         explanation='D4 (%allow_unmatched not rendered) repaired by a fix: commit.',
     ),
+    'C33': dict(
+        level='proof',
+        level_text='Rocq theorems (ASCII domain) about models of generate_name, generate_terminal_names, the terminal char->name table and the '
+                   'case conversions of naming_helper.rs: generated terminal names are pairwise distinct for ANY list of preferred names '
+                   '(C33_terminal_names_nodup), validity is preserved by the numeric-suffix generation and holds for the table and the '
+                   'conversions on their domain, with four refutations (Self, r#self/crate/super, empty type name for "_", lone '
+                   'underscore). Tie to the code: identifiers are read with syn from the sources the REAL generator emits for '
+                   'collision-prone grammars and the repository grammars (parse = valid; duplicates among items, fields, variants, '
+                   'methods and the two name tables).',
+        level_note='Trusted: Coq kernel, syn as the judge of identifier validity, the Python/Rust read-out. Non-ASCII names are outside the '
+                   'proved domain. Member-name uniqueness inside generated structs is checked on the real output only.',
+        technique='Rocq proof on models of the naming functions + syn-based check of the real generated sources',
+        custom=lschecks.c33,
+        rule='11 hand-made collision grammars (terminals mapping to one name, numeric suffixes, case variants, keywords, self/Self/crate/_, '
+             'blank terminals, member names) + 40 (300) generated grammars over punctuation terminals and similar non-terminal names + '
+             'repository grammars; non-trivial = every grammar that generated sources; distinct = distinct grammar text',
+        explanation='Known findings: Self / raw keywords / "_" non-terminal / blank terminal produce invalid Rust.',
+    ),
 })
